@@ -17,6 +17,8 @@ static inline struct vs_opt_int  *vs_opt_int_assign(struct vs_opt_int *o, int v)
 static inline struct vs_opt_date *vs_opt_date_assign(struct vs_opt_date *o, const struct vs_opaque *d) { o->has = 1; o->v = *d; return o; }
 /* ghost: the input text of the call (base pointer and length), and what CookieJar::add was given */
 const char *g_in; size_t g_in_len; size_t g_add_calls;
+/* ghost: a scan for '=' ran into the end of the header text */
+bool g_no_eq;
 '''
 TYPES = dict(_s.TYPES)
 TYPES.update({'std::string': 'struct vs_astr', 'Pistache::RawStreamBuf<char>::Base': 'struct vs_streambuf',
@@ -146,17 +148,21 @@ FUNCTIONS = list(_s.FUNCTIONS) + [
         invariant buf.vs_base_StreamBuf.pos <= buf.vs_base_StreamBuf.len && vs_exc == 0 && (cookie.maxAge.has ==> cookie.maxAge.v >= 0)
         decreases buf.vs_base_StreamBuf.len - buf.vs_base_StreamBuf.pos"""]},
     {'q': 'Pistache::Http::CookieJar::addFromRaw', 'hoist_all': True,
+     'ghost': [('Pistache_match_until_c', 'after', "if ($0 == '=' && !$RET) g_no_eq = 1;")],
      'dead_ok': ['throw std::runtime_error("Invalid cookie, missing value");'], 'contract': """
-        requires FRESH(this, sizeof(*this)) && len <= MAXLEN && FRESH(str, len) && vs_exc == 0 && PTR_EQ(g_in, str) && g_in_len == len && g_add_calls == 0
-        assigns vs_exc, g_hit_end, g_app_src, g_add_calls, this->cookies
+        requires FRESH(this, sizeof(*this)) && len <= MAXLEN && FRESH(str, len) && vs_exc == 0 && PTR_EQ(g_in, str) && g_in_len == len && g_add_calls == 0 && !g_no_eq
+        assigns vs_exc, g_hit_end, g_app_src, g_add_calls, g_no_eq, this->cookies
         # every pair handed to the jar is cut out of the header text at an '=' (asserted at each CookieJar::add), the scan stays in
         # [str, str+len) and terminates; a missing '=' is an error
         ensures vs_exc == 0 || vs_exc == VS_EXC_RUNTIME_ERROR || vs_exc == VS_EXC_OTHER_STD
         ensures (vs_exc == 0 && len > 0) ==> g_add_calls >= 1
-        ensures len == 0 ==> (vs_exc == 0 && g_add_calls == 0)""",
+        ensures len == 0 ==> (vs_exc == 0 && g_add_calls == 0)
+        # the header is refused as malformed only when a name is not followed by '=' before the end of the text: a pair with an empty
+        # value, in any position, is a pair
+        ensures IFF(vs_exc == VS_EXC_RUNTIME_ERROR, g_no_eq)""",
      'loops': ["""
-        assigns buf.vs_base_StreamBuf.pos, vs_exc, g_hit_end, g_app_src, g_add_calls, this->cookies, $HOISTED
-        invariant buf.vs_base_StreamBuf.pos <= buf.vs_base_StreamBuf.len && vs_exc == 0 && (buf.vs_base_StreamBuf.pos > 0 ==> g_add_calls >= 1) && g_add_calls <= buf.vs_base_StreamBuf.pos
+        assigns buf.vs_base_StreamBuf.pos, vs_exc, g_hit_end, g_app_src, g_add_calls, g_no_eq, this->cookies, $HOISTED
+        invariant buf.vs_base_StreamBuf.pos <= buf.vs_base_StreamBuf.len && vs_exc == 0 && !g_no_eq && (buf.vs_base_StreamBuf.pos > 0 ==> g_add_calls >= 1) && g_add_calls <= buf.vs_base_StreamBuf.pos
         decreases buf.vs_base_StreamBuf.len - buf.vs_base_StreamBuf.pos"""]},
 ]
 ADV, MUC, MS, SKW = 'Pistache_StreamCursor_advance', 'Pistache_match_until_c', 'Pistache_match_string', 'Pistache_skip_whitespaces'
